@@ -12,7 +12,7 @@ Line protocol for C03 (heap model).  All payloads are blank-separated `key=value
 * `c03.copy stale=<0|1> init=…` → `same=0 n=<fresh|none|alias> c=… g=… i=… view=<0|1> lock=<k> abs=<abs>`
 * `c03.call ip=<0|1> stale=<0|1> init=… body=…` →
   `same=<0|1> ext=<0|1> frame=<0|1> wo=<0|1> in=<abs of the input afterwards> out=<abs of the result>`
-* `c03.bad ip=<0|1> init=… pre=… body=…`  (statements `pre` run before the copy) → same fields
+* `c03.bad ip=<0|1> stale=<0|1> init=… pre=… body=…`  (statements `pre` run before the copy) → same fields
 * `c03.maplist ip=<0|1> swap=<0|1> k=<members> init=… body=…` →
   `samelist=<0|1> ext=<0|1> recv=<m0.m1…> res=<…> in=<abs|abs…> out=<abs|…>`  (members as `s<i>` = the i-th input
   object, `f` = a fresh object)
@@ -119,11 +119,12 @@ def run (cmd rest : String) : Option String :=
     pure (report s x (call b s x ip stale) (writesOwn true b))
   | "bad" => do
     let ip ← (look m "ip") >>= pBool
+    let stale := ((look m "stale") >>= pBool).getD false
     let (vals, info) ← (look m "init") >>= pInit
     let pre ← (look m "pre") >>= pBody
     let b ← (look m "body") >>= pBody
     let (s, x) := addObj {} vals info
-    pure (report s x (badCall pre b s x ip) (writesOwn true b))
+    pure (report s x (badCall pre b s x ip stale) (writesOwn true b))
   | "maplist" => do
     let ip ← (look m "ip") >>= pBool
     let swap ← (look m "swap") >>= pBool
